@@ -133,7 +133,7 @@ def relayout(lines, rng, use_include, tmpdir):
         if rng.random() < 0.3:
             l = l + rng.choice([" ", "   ", "\t"])
         if rng.random() < 0.2 and "'" not in l and l.strip() and not l.strip().endswith("{"):
-            l = l + rng.choice([" ; eol comment", ";c", "  ; LDA #1"])
+            l = l + rng.choice([" ; eol comment", ";c", "  ; LDA #1", " ;; note", " ; a; b ; c", ";;", " ; tail ;", " ; x /* y"])
         out.append(l)
         depth += line.count("{") - line.count("}")
     text = "\n".join(out) + "\n"
@@ -171,7 +171,41 @@ def observe(src):
     return res["status"], hexblocks(res["blocks"]), syms, (res["error"] or res["exc"] or "")[:160]
 
 
+REPEATED_RUNS = [["lda #0x12", ".db 1, 2, 3", "inx"], ["nop"], [".dw 0x1234", "rts"], ["{", "l:", "bra l", "}"], ["k := 5", ".db k"]]
+
+
+def check_twice(case):
+    """a run of statements that occurs several times (at top level, in a named scope, in a block), EVERY occurrence replaced by an .include of the same file"""
+    rng = random.Random(case["seed"])
+    run_ = REPEATED_RUNS[case["run"] % len(REPEATED_RUNS)]
+    tmp = tempfile.mkdtemp(prefix="vfC16t")
+    try:
+        inc = os.path.join(tmp, "part.s")
+        open(inc, "w").write(relayout(run_, rng, False, tmp))
+        use = [f".include '{inc}'"]
+
+        def prog(r):
+            return ["*=0x008000", "start:"] + r + ["mid:", "lda.w mid", ".scope s {"] + r + ["inner:", "}", "{"] + r + ["}"] + (r if case["run"] % 2 else []) + ["after:", ".dw after", ".dw s.inner"]
+        ref = observe("\n".join(prog(run_)) + "\n")
+        if ref[0] != "ok":
+            raise RuntimeError(f"base program does not assemble: {ref[3]}")
+        variant = "\n".join(prog(use)) + "\n"
+        got = observe(variant)
+        shown = variant.replace(inc, "part.s")
+        if got[0] != "ok":
+            return f"the program with the repeated run included is rejected: {got[3]}", shown
+        if got[1] != ref[1]:
+            return f"bytes/offsets differ when a repeated run is included from one file: {got[1][:2]} vs {ref[1][:2]}", shown
+        if got[2] != ref[2]:
+            return f"symbol values differ when a repeated run is included from one file: {[k for k in ref[2] if got[2].get(k) != ref[2][k]][:3]}", shown
+        return None, shown + "# " + str(case["seed"])
+    finally:
+        shutil.rmtree(tmp, ignore_errors=True)
+
+
 def check(case):
+    if "run" in case:
+        return check_twice(case)
     rng = random.Random(case["seed"])
     if case["base"] < len(HAND):
         base = HAND[case["base"]]
@@ -206,8 +240,10 @@ def run(tier, seed):
     distinct = set()
     samples = []
     kinds = set()
-    for i in range(n):
+    for i in range(n + (40 if tier == "thorough" else 10)):
         case = {"seed": seed * 2147483 + i, "base": (i % 7) if i % 7 < len(HAND) else 100 + i % 40, "include": i % 3 == 0}
+        if i >= n:
+            case = {"seed": seed * 2147483 + i, "run": i - n}
         f, variant = check(case)
         distinct.add(variant)
         if i == 1:
@@ -217,10 +253,10 @@ def run(tier, seed):
             if k not in kinds and len(failures) < 10:
                 kinds.add(k)
                 failures.append({"ident": "bounded/relayout", "script": "b_C16.py", "payload": case, "observed": f + " :: " + variant[:300].replace("\n", " / ")})
-    return {"evaluations": n, "distinct_nontrivial": len(distinct),
+    return {"evaluations": n + (40 if tier == "thorough" else 10), "distinct_nontrivial": len(distinct),
             "rule": "random compositions of: blank lines, indentation, trailing blanks, full-line and end-of-line ';' comments, one-line and multi-line /* */ comments "
                     "between statements, blanks next to operators / commas / inside brackets, letter case of mnemonics / size suffixes / index registers / hex digits, "
-                    "moving a run of top-level statements into an .include'd file -- on 2 hand-written programs covering every operand shape and 40 generated programs; "
+                    "moving a run of top-level statements into an .include'd file, a repeated run (top level / named scope / block) included from ONE file at every occurrence -- on 2 hand-written programs covering every operand shape and 40 generated programs; "
                     "compares blocks and all symbol values with the original",
             "samples": samples, "failures": failures}
 
